@@ -1,8 +1,8 @@
 SPEC = {
     "id": "C06",
     "level": "other",
-    "sidecars": ["fingerprint_url"],
-    "functions": ["ural/fingerprint_url.py:strip_lang_subdomains_from_hostname", "ural/fingerprint_url.py:lang_query_item_filter"],
+    "sidecars": ["fingerprint_url", "normalize_url"],
+    "functions": ["ural/fingerprint_url.py:strip_lang_subdomains_from_hostname", "ural/fingerprint_url.py:lang_query_item_filter", "ural/normalize_url.py:should_strip_query_item"],
     "bounded": ["bcheck.c06"],
     "explanation": (
         "Deciding step is BOUNDED: fingerprint_url(T(u)) == fingerprint_url(u) for case flips of every component, ports, ISO-3166 language labels "
@@ -10,7 +10,7 @@ SPEC = {
         "platform_aware, plus the negative clauses (non-codes and two-label hosts are NOT stripped) and 'no scheme / userinfo / port in the result'. "
         "Deductive extras discharged for all inputs by pyvc: strip_lang_subdomains_from_hostname never raises (both split(sep, 1) unpackings are "
         "guarded), removes exactly one leading label or nothing, only when more than one dot is present (at least two labels remain) and only a label "
-        "of length 2 or of length 5 containing '-'; lang_query_item_filter rejects exactly the gl / hl keys."),
+        "of length 2 or of length 5 containing '-'; lang_query_item_filter rejects exactly the gl / hl keys; should_strip_query_item keeps an item only if the caller's filter (here the gl / hl filter) accepted it, whatever per-domain filter exists."),
     "assumptions": ["str.count(sub) > 0 <=> sub in s; sep in s => s.split(sep, 1) has exactly two pieces (library facts)",
                     "with platform_aware=True the platform parsers only rewrite their registered domains: negative and suffix clauses skip facebook / youtube hosts"],
     "trusted_base": ["pyvc + z3 for the extras", "bundled ISO-3166 set as the source of language labels"],
